@@ -32,6 +32,7 @@ import textwrap
 import icontract
 import numpy as np
 
+from vmon import own
 from vmon import contracts, world
 
 PROPERTY = 'C04'
@@ -63,7 +64,7 @@ REQUIRED = dict(
               'contract:compute_opacity:outside-equals-clamped', 'contract:compute_opacity:zero-below-both-minima',
               'contract:opacity:formula', 'contract:opacity:within-bracketing-nodes', 'contract:opacity:nonnegative',
               'contract:ktable.opacity:formula', 'contract:ktable.opacity:within-bracketing-nodes',
-              'restricted-equals-rows', 'one-return-per-call'],
+              'restricted-equals-rows', 'one-return-per-call', 'earlier-result-stays-as-returned', 'caller-input-left-alone'],
     classes=['region:' + r for r in REGIONS] +
             ['linear:region:' + r for r in REGIONS] + ['exp:region:' + r for r in REGIONS] +
             ['ktable:region:' + r for r in REGIONS] +
@@ -72,7 +73,7 @@ REQUIRED = dict(
              'query:interior', 'query:exact-Tmin', 'query:exact-Tmax', 'query:exact-Pmin', 'query:exact-Pmax',
              'magnitude:tiny', 'magnitude:mid', 'magnitude:large', 'magnitude:steep', 'magnitude:ones',
              'exp-mode-zero-in-table', 'linear-mode-zero-in-table', 'live-switch:linear->exp', 'live-switch:exp->linear',
-             'live-switch:exp->exp', 'live-switch:linear->linear', 'table:single-P-node', 'table:single-T-node'])
+             'live-switch:exp->exp', 'live-switch:linear->linear', 'table:single-P-node', 'table:single-T-node', 'wngrid:reused-work-array'])
 EPS = float(np.finfo(float).eps)
 TOOL_ID = 3
 
@@ -513,6 +514,8 @@ def run_queries(ctx, rng, op, queries, layout, mode):
     judged0 = sum(v for k, v in ctx.monitors.items() if k.endswith(':formula'))
     switch_at = set()
     _state['declared'] = (op, mode)
+    led = own.Ledger(ctx, layout)          # results kept by the caller / work arrays it re-uses (see vmon/own.py)
+    work = {}
     if rng.random() < 0.5:                       # the mode is changed on the LIVE object between evaluations
         switch_at = set(int(k) for k in rng.integers(1, max(len(queries), 2), size=int(rng.integers(1, 4))))
     for qi, (T, P, tag) in enumerate(queries):
@@ -545,8 +548,19 @@ def run_queries(ctx, rng, op, queries, layout, mode):
             i0 = int(rng.integers(0, n))
             i1 = int(rng.integers(i0 + 1, n + 1))
             sub = wn[i0:i1].copy()
-            full = np.asarray(op.opacity(T, P))
-            part = np.asarray(op.opacity(T, P, sub))
+            if (i1 - i0) in work and rng.random() < 0.7:
+                # the caller's ONE work array of that length, refilled in place with another window
+                sub = led.refill(work[i1 - i0], sub)
+                ctx.observe('wngrid:reused-work-array')
+            else:
+                work[i1 - i0] = sub
+            led.lend(sub, 'requested wngrid')
+            full_raw = op.opacity(T, P)
+            part_raw = op.opacity(T, P, sub)
+            full, part = np.asarray(full_raw), np.asarray(part_raw)
+            led.settle('opacity() query %d' % qi)
+            led.keep(full_raw, 'opacity(T,P)[%d]' % qi)
+            led.keep(part_raw, 'opacity(T,P,wngrid)[%d]' % qi)
             ctx.observe('route:opacity(wngrid)', 'subrange-len:%s' % ('1' if i1 - i0 == 1 else 'all' if i1 - i0 == n else 'some'))
             if layout == 'ktable':
                 ok = part.shape == (i1 - i0, full.shape[1]) and np.array_equal(part, full[i0:i1], equal_nan=True)
@@ -554,6 +568,7 @@ def run_queries(ctx, rng, op, queries, layout, mode):
                 ok = part.shape == (i1 - i0,) and np.array_equal(part, full[i0:i1], equal_nan=True)
             ctx.check('restricted-equals-rows', ok, T=T, P=P, i0=i0, i1=i1, n=n, layout=layout,
                       part_shape=list(part.shape), full_shape=list(full.shape))
+    led.settle('all queries')
     _state['tag'] = None
     _state['declared'] = None
     return sum(v for k, v in ctx.monitors.items() if k.endswith(':formula')) - judged0
